@@ -269,9 +269,43 @@ def rule_globroot(facts):
     return r
 
 
+def rule_filterand(facts):
+    """A scan filter is a necessary condition for a row (the scan may skip whatever violates it). Only the conjuncts of an AND are
+    necessary conditions; the operands of an OR are not (`id = 6 OR id = 100000` pushed down as two filters prunes the row group that
+    holds id = 6). Decided in optimizer::scan_filter: every walk over the operands of a conjunction expression (a use of the
+    `expressions` field of ConjunctionExpr) is dominated by a test of that conjunction's operator."""
+    r = RuleResult("C11-FILTERAND", "scan-filter extraction walks the operands of a conjunction only after testing that it is an AND", floor=1)
+    n = 0
+    for rec in facts.all_fns(["glaredb_core"], contains="optimizer::scan_filter::"):
+        if "optimizer::scan_filter::" not in rec["id"] or "::tests::" in rec["id"]:
+            continue
+        if "'expressions'" not in str(rec["bbs"]):
+            continue
+        fn = Fn(rec)
+        tests = [c.bb for c in fn.calls() if "ConjunctionOperator" in c.name and c.name.rsplit("::", 1)[-1] in ("eq", "ne")]
+        for b in range(fn.n):
+            for s_ in fn.bbs[b]["s"]:
+                if s_[0] == "a" and s_[2][0] == "disc" and "'op'" in str(s_[2]) and "Conjunction" in str(s_[2]):
+                    tests.append(b)
+        for c in fn.calls():
+            if not c.args or not any("'expressions'" in str(fn.origin(a, at=c.bb)) and "ConjunctionExpr" in str(fn.origin(a, at=c.bb)) for a in c.args if a[0] in ("c", "m")):
+                continue
+            n += 1
+            ok = any(fn.dominates(t, c.bb) and t != c.bb for t in tests)
+            r.functions.add(fn.id)
+            r.call_sites += 1
+            r.inst({"fn": fn.id, "line": c.line, "operator_tested_first": ok}, ok)
+            if not ok:
+                r.violate(fn.id, "walks-any-conjunction", f"the operands of a conjunction are walked at line {c.line} without a test of its operator: the operands of an OR become "
+                          "scan filters, and a row group is pruned although one of the alternatives matches rows in it", rec["file"], c.line)
+    if n == 0:
+        r.missing_anchor("optimizer::scan_filter: no walk over a conjunction's operands")
+    return r
+
+
 def run(ctx):
     facts = ctx["facts"]
-    return [rule_prune(facts), rule_frame(facts), rule_files(facts), rule_colidx(facts), rule_globroot(facts)]
+    return [rule_prune(facts), rule_frame(facts), rule_files(facts), rule_colidx(facts), rule_globroot(facts), rule_filterand(facts)]
 
 
 CLAIM = {
@@ -280,7 +314,8 @@ CLAIM = {
             "skip/step_by arguments in every multi-file scan. These make pushdown and file distribution conservative by construction for "
             "all inputs; value conversions of statistics are not decided. (COLIDX) the Parquet struct reader matches pushed-down filters to "
             "column readers by column index, never by the position in the projection list. The range test of the pruner must also be evaluated in the order of the column's logical type (the constant's type), not of the signed physical statistics type."
-            " Plus GLOBROOT: every glob_segments implementation that splits the glob also tests or strips its prefix (an absolute local glob keeps its root).",
+            " Plus GLOBROOT: every glob_segments implementation that splits the glob also tests or strips its prefix (an absolute local glob keeps its root)."
+            " Plus FILTERAND: scan-filter extraction walks the operands of a conjunction only after testing that it is an AND.",
     "note": "trusted: rustc MIR; comparison orientation is read from the operands' field provenance (stats.min / stats.max / filter constant)",
     "technique": "static analysis: MIR edge-dominance + frame (write-set) + provenance rules (rustc_private driver)",
 }
